@@ -509,7 +509,8 @@ func programLine(l []byte, bh *Header) error {
 }
 
 func commentLine(l []byte, bh *Header) error {
-	fields := bytes.Split(l, []byte{'\t'})
+	// The comment is everything after the first tab.
+	fields := bytes.SplitN(l, []byte{'\t'}, 2)
 	if len(fields) < 2 {
 		return errBadHeader
 	}
